@@ -160,6 +160,9 @@ class ImplCoverage:
             import coverage
             self.cov = coverage.Coverage(data_file=None, config_file=False, include=[os.path.join(REPO, 'odak', '*')])
             self.cov.start()
+            # calls made in the watchdog worker process are traced there and merged in finish()
+            self.worker_file = os.path.join(LEAN, '.lake', 'cov_worker_%s_%d' % (pid, os.getpid()))
+            os.environ['VERIF_COV_FILE'] = self.worker_file
         except Exception:
             self.cov = None
 
@@ -172,6 +175,15 @@ class ImplCoverage:
             with _w.catch_warnings():
                 _w.simplefilter('ignore')
                 self.cov.stop()
+                os.environ.pop('VERIF_COV_FILE', None)
+                wf = getattr(self, 'worker_file', None)
+                if wf and os.path.exists(wf):
+                    try:
+                        self.cov.combine(data_paths=[wf], strict=False, keep=False)
+                    except Exception:
+                        pass
+                    if os.path.exists(wf):
+                        os.remove(wf)
             out = {}
             for rel in self.files:
                 path = os.path.join(REPO, rel)
